@@ -19,6 +19,16 @@ pub fn not_compared(p: &str) -> bool {
 
 pub fn check_case(_ctx: &Ctx, case: &Case, t: &mut Tally, completeness: bool) {
     let Some((comps, fac)) = prepare(PROP, case, t) else { return };
+    // history: one case in four is preceded, in this thread, by a sibling building with the same carrier totals at every
+    // step and another split between two services - the equations know no state, so nothing of it may show
+    if case.sub_seed % 4 == 1 {
+        if let Some(sib) = case.spec.sibling_with_swapped_services() {
+            if let crate::safe::Out::Ok(cs) = crate::safe::parse_components(&sib.to_text()) {
+                let _ = crate::safe::eval(&cs, &fac, case.k, case.area, case.lm);
+                t.count("history.sibling_building_evaluated_first");
+            }
+        }
+    }
     t.evaluations += 1;
     let got = crate::safe::eval(&comps, &fac, case.k, case.area, case.lm);
     let want = ref_eval_parsed(&comps, &fac, case.k, case.area, case.lm);
